@@ -233,7 +233,7 @@ impl Property for C17 {
         1800
     }
     fn quick_cases(&self) -> u64 {
-        4_000
+        48_000
     }
     fn states_termination(&self) -> bool {
         true
